@@ -261,10 +261,142 @@ func c05Tok(iss, aud, sub, cmd int, pol policy.Policy, win int) *delegation.Toke
 	if win == 3 {
 		opts = append(opts, delegation.WithNotBeforeIn(-c04TenYears), delegation.WithExpirationIn(c04TenYears))
 	}
+	if iss == sub && win == 0 {
+		// the dedicated constructor for root delegations (subject = issuer)
+		t, err := delegation.Root(prin(iss), prin(aud), commandOf(c05Cmds[cmd]), pol, delegation.WithNonce(fixedNonce))
+		if err != nil {
+			panic(err)
+		}
+		return t
+	}
 	return mustDlg(iss, aud, sub, c05Cmds[cmd], pol, opts...)
 }
 
 var _ = time.Second
+
+// ---- a richer universe of satisfied policies ----
+
+// c05TrueStatements are statements that are true, by the classical reading of the policy
+// language, for the arguments {x:1, f:1.5, y:"ab", s:"a*b\\c", l:[1,2,3], m:{k:"v"}, e:[]}.
+// One statement per operator / selector / pattern feature.
+func c05TrueStatements() []policy.Constructor {
+	return []policy.Constructor{
+		policy.Equal(".x", literal.Int(1)),
+		policy.Equal(".y", literal.String("ab")),
+		policy.Equal(".m.k", literal.String("v")),
+		policy.Equal(".l[0]", literal.Int(1)),
+		policy.Equal(".l[-1]", literal.Int(3)),
+		policy.Equal(".l[1:]", nList(nInt(2), nInt(3))),
+		policy.Equal(".nope?", literal.Int(7)),
+		policy.GreaterThan(".x", literal.Int(0)),
+		policy.GreaterThanOrEqual(".x", literal.Int(1)),
+		policy.LessThan(".x", literal.Int(2)),
+		policy.LessThanOrEqual(".f", literal.Float(1.5)),
+		policy.GreaterThan(".f", literal.Float(1.25)),
+		policy.Like(".y", "ab"),
+		policy.Like(".y", "a*"),
+		policy.Like(".y", "*b"),
+		policy.Like(".y", "*"),
+		policy.Like(".y", `a\b`),
+		policy.Like(".y", `\a\b`),
+		policy.Like(".s", `a\*b\\c`),
+		policy.Like(".s", `a\**`),
+		policy.Like(".s", `*\\c`),
+		policy.Not(policy.Equal(".x", literal.Int(2))),
+		policy.Not(policy.Like(".y", "b*")),
+		policy.And(policy.Equal(".x", literal.Int(1)), policy.Like(".y", "a*b")),
+		policy.And(),
+		policy.Or(policy.Equal(".x", literal.Int(2)), policy.Equal(".y", literal.String("ab"))),
+		policy.All(".l", policy.GreaterThan(".", literal.Int(0))),
+		policy.All(".e", policy.Equal(".", literal.Int(9))),
+		policy.Any(".l", policy.Equal(".", literal.Int(3))),
+		policy.Any(".m[]", policy.Like(".", "v")),
+		policy.Not(policy.Any(".e", policy.Equal(".", literal.Int(1)))),
+	}
+}
+
+type c05PolCase struct {
+	Stmts []int `json:"stmts"` // root first: one statement index per link
+	Two   bool  `json:"two"`   // the leaf link carries a second statement (Stmts[len-1]+1 mod n)
+}
+
+func (c *c05PolCase) Weight() int { return len(c.Stmts) }
+
+func c05PolicySub() *engine.Sub {
+	stmts := c05TrueStatements()
+	return &engine.Sub{
+		Name: "satisfied-policy-universe",
+		Rule: "rule-conforming chains of 1..2 links (quick; 3 thorough) whose policies are drawn from 31 statements that are true for the invocation's arguments under the classical reading - one per operator, selector form (field, nested field, index, negative index, slice, optional, iterator) and pattern feature (literal, prefix/suffix star, escapes without and with stars, escaped backslash); every such invocation must be allowed; non-trivial = all",
+		Bound: func(t string) string { return fmt.Sprintf("31 true statements per link, chains of 1..%d links, leaf policy of 1 or 2 statements", tierN(t, 2, 3)) },
+		Setup: func(string) error { chainInit(); return nil },
+		Gen: func(tier string, emit func(any) bool) {
+			n := len(stmts)
+			for a := 0; a < n; a++ {
+				for _, two := range []bool{false, true} {
+					if !emit(&c05PolCase{Stmts: []int{a}, Two: two}) {
+						return
+					}
+				}
+			}
+			for a := 0; a < n; a++ {
+				for b := 0; b < n; b++ {
+					if !emit(&c05PolCase{Stmts: []int{a, b}}) {
+						return
+					}
+				}
+			}
+			if tier == "thorough" {
+				for a := 0; a < n; a++ {
+					for b := 0; b < n; b++ {
+						for c := 0; c < n; c++ {
+							if !emit(&c05PolCase{Stmts: []int{a, b, c}}) {
+								return
+							}
+						}
+					}
+				}
+			}
+		},
+		NewCase: func() any { return &c05PolCase{} },
+		Run: func(ctx *engine.Ctx, c any) {
+			cs := c.(*c05PolCase)
+			n := len(cs.Stmts)
+			ld := &sliceLoader{}
+			prf := make([]cid.Cid, n)
+			for i := 0; i < n; i++ { // link i: root first; holders p0 -> p1 -> p2 -> p0 ...
+				cons := []policy.Constructor{stmts[cs.Stmts[i]]}
+				if cs.Two && i == n-1 {
+					cons = append(cons, stmts[(cs.Stmts[i]+1)%len(stmts)])
+				}
+				pol, err := policy.Construct(cons...)
+				if err != nil {
+					panic(err)
+				}
+				ld.cids = append(ld.cids, cidPool[i])
+				ld.toks = append(ld.toks, mustDlg(i%3, (i+1)%3, 0, "/a", pol))
+				prf[n-1-i] = cidPool[i]
+			}
+			inv, err := invocation.New(prin(n%3), prin(0), "/a", prf, invocation.WithNonce(fixedNonce),
+				invocation.WithArgument("x", 1), invocation.WithArgument("f", 1.5), invocation.WithArgument("y", "ab"), invocation.WithArgument("s", `a*b\c`),
+				invocation.WithArgument("l", []int{1, 2, 3}), invocation.WithArgument("m", map[string]string{"k": "v"}), invocation.WithArgument("e", []int{}))
+			if err != nil {
+				panic(err)
+			}
+			ctx.States(1)
+			ctx.Nontrivial(1)
+			ctx.Trans(int64(n))
+			e1, e2 := bothVerdicts(inv, ld)
+			ctx.Eval(2)
+			ctx.Outcome(errLabel(e1))
+			for _, e := range []error{e1, e2} {
+				if e != nil {
+					ctx.Failf(cs, "conforming-denied:"+errLabel(e)+"/satisfied-policy", "chain whose policies (statements %v, root first) are all satisfied by the arguments is denied: %v", cs.Stmts, e)
+					return
+				}
+			}
+		},
+	}
+}
 
 func C05() *engine.Check {
 	return &engine.Check{
@@ -272,7 +404,9 @@ func C05() *engine.Check {
 		Level:    "model_checking",
 		Subs: []*engine.Sub{
 			c05Sub(3, 5),
+			c05PolicySub(),
 			c01Sub("principal-universe-completeness", "complete", 3, 4),
+			c01SealedSub("sealed-tokens-through-container-completeness", "complete", 2, 3),
 			c02Sub("command-universe-completeness", "complete", 4, 6),
 			c03Sub("policy-universe-completeness", "complete"),
 			c03HookSub("args-hook-completeness", "complete"),
